@@ -23,9 +23,11 @@ SEEDS = {
              "2020-001", "2020001", "2020-01-01T00:00:00", "2020-01-01 ", " 2020-01-01", "2020-01-01\n", "2020/01/01",
              "02020-01-01", "-2020-01-01", "+2020-01-01", "٢020-01-01", "2020-０１-01", "9999-12-31",
              "0001-01-01", "2020-12-31", "2020-11-31", "202-01-01", "", "2020-06-30Z"],
-    "email": ["a@b", "@", "ab", "", "a@", "@b", "a b@c", "a@@b", "＠", "a\n@b"],
+    "email": ["a@b", "@", "ab", "", "a@", "@b", "a b@c", "a@@b", "＠", "a\n@b", "a" * 65 + "@example.com", "a" * 300 + "@b",
+              "a" * 300, "x" * 64 + "@" + "y" * 255],
     "idn-email": ["a@b", "ab", "", "é@é"],
-    "regex": ["a", "", "(", ")", "a{2}", "a{99999999999}", "a{2,1}", "(?a)(?u)", "(?a)", "[", "[a-", "\\", "*", "a**",
+    "regex": ["a", "", "(", ")", "a{2}", "a{99999999999}", "a{2,1}", "(?a)(?u)", "(?a)", "(?a)\\w+", "(?ai)^[a-z]\\d*$", "(?u)\\w", "(?L)a",
+              "a" * 300, "(" * 90 + ")" * 90, "a{" + "9" * 4301 + "}", "[", "[a-", "\\", "*", "a**",
               "(?P<n>a)(?P<n>b)", "(?P<n>a)(?P=n)", "\\1", "(a)\\2", "(?i)a", "a(?i)", "(?<=a+)b", "a{1,99999999999}",
               "\\N{BAD}", "[\\d-a]", "(?#", "(?P<1>a)", "\\8", "x{4294967296}", "(?z)", "(?-)", "(?:" * 30 + ")" * 30],
     "time": ["12:00:00", "24:00:00", "12:60:00", "1:2:3", "12:00", "", "12:00:00Z", "١٢:00:00", "12:00:61"],
